@@ -645,6 +645,8 @@ func init() {
 		// position lists of unaligned tables hold arbitrary offsets
 		checkAlignFree(p, r)
 		checkObjListWhole(p, r)
+		// an open RefsFor iterator is not disturbed by later lookups through the same reader or view
+		copyStateless(p, r, "REFSFOR-STATELESS", "a RefsFor result can depend on other lookups through the same Reader or Merged")
 		// nil contracts on the RefsFor paths
 		cg := buildCallGraph(p)
 		reach := cg.reachable(hostileRoots(p, cg))
